@@ -426,6 +426,19 @@ func udpMonitors(ctx *Ctx, prop string, cs *udpCaseSpec, obs []udpOpObs, shutdow
 			if (ob.Report.Status == "OK") != ob.Forwarded {
 				ctx.Monitor("C16/status-vs-outcome", fmt.Sprintf("status %s but forwarded=%v", ob.Report.Status, ob.Forwarded), rep)
 			}
+			// a datagram refused for its destination: the status names the reason — a destination that
+			// is not a global unicast address is invalid, one inside a private range is private
+			if cs.Validate && valid && a != nil && a.c == op.C && a.s == op.S && !targetKinds[op.AKind].public && !op.Port0 {
+				if ip := net.ParseIP(targetKinds[op.AKind].ip); ip != nil {
+					want := "ERR_ADDRESS_PRIVATE"
+					if !ip.IsGlobalUnicast() {
+						want = "ERR_ADDRESS_INVALID"
+					}
+					if ob.Report.Status != want {
+						ctx.Monitor("C16/status-does-not-name-the-refusal:"+targetKinds[op.AKind].name, fmt.Sprintf("a datagram to %s was refused with %s, the reason is %s", targetKinds[op.AKind].ip, ob.Report.Status, want), rep)
+					}
+				}
+			}
 			if !ob.Forwarded && ob.Report.B != 0 {
 				ctx.Monitor("C16/payload-bytes-on-dropped-datagram", fmt.Sprintf("datagram was not forwarded (status %s) but %d proxy-to-target bytes are reported", ob.Report.Status, ob.Report.B), rep)
 			}
